@@ -53,6 +53,7 @@ func (its *jsonObject) putCommon(key string, value interface{}, ts *model.Timest
 	if removed != nil {
 		removedJSON := removed.(jsonType)
 		putJSON := put.(jsonType)
+		wasDeleted := removedJSON.isTomb() // the key had been deleted before this put: there is no old value
 		/*
 			The removedJSON.makeTomb(ts) should work as follows.
 			JSONObject and JSONArray remain in NodeMap because they can be accessed as parents by other remote operations.
@@ -66,6 +67,9 @@ func (its *jsonObject) putCommon(key string, value interface{}, ts *model.Timest
 			jsonObject, jsonArray: remain in NodeMap, added to Cemetery.
 		*/
 		its.funeral(removedJSON, putJSON.getCreateTime())
+		if wasDeleted {
+			return nil
+		}
 		return removedJSON
 	}
 	return nil
